@@ -232,7 +232,7 @@ class SymInt(object):
             from . import symfloat
             if isinstance(o, (float, symfloat.SymFloat)):
                 return symfloat.from_int(s) == o
-            return False
+            return NotImplemented
         return r
 
     def __ne__(s, o):
@@ -241,7 +241,7 @@ class SymInt(object):
             from . import symfloat
             if isinstance(o, (float, symfloat.SymFloat)):
                 return symfloat.from_int(s) != o
-            return True
+            return NotImplemented
         return r
 
     def __bool__(s):
@@ -315,9 +315,17 @@ def ite(cond, a, b):
     return mk(ir.ite(cond.z(), lift(a), lift(b)))
 
 
+def _intlike(x):
+    return type(x) is SymInt or type(x) is int
+
+
 def smin(a, b):
-    return ite(a <= b, a, b) if (type(a) is SymInt or type(b) is SymInt) else min(a, b)
+    if _intlike(a) and _intlike(b):
+        return ite(a <= b, a, b) if (type(a) is SymInt or type(b) is SymInt) else min(a, b)
+    return b if bool(b < a) else a          # Python's min: first minimal element
 
 
 def smax(a, b):
-    return ite(a >= b, a, b) if (type(a) is SymInt or type(b) is SymInt) else max(a, b)
+    if _intlike(a) and _intlike(b):
+        return ite(a >= b, a, b) if (type(a) is SymInt or type(b) is SymInt) else max(a, b)
+    return b if bool(b > a) else a
